@@ -86,10 +86,14 @@ def parseImpl (s : String) : Option ImplObs := do
 structure DSt where
   cfg : Cfg
   sess : Sess
+  /-- what the session held when the harness last looked (`hold` / `heldcheck`), as the harness prints it -/
+  held : String := ""
+  /-- the last connection was a confirmed resumption (model) -/
+  lastResumed : Bool := false
 
 def init (fields : List String) : DSt :=
   let m := kv fields
-  ⟨⟨getB m "insecure"⟩, ⟨false, "", 0, "", getB m "sm"⟩⟩
+  { cfg := ⟨getB m "insecure"⟩, sess := ⟨false, "", 0, "", getB m "sm"⟩ }
 
 /-- which oracle judges the implementation's observation -/
 inductive Which where | c03 | c04 | c11 | c14
@@ -111,6 +115,13 @@ def stepWith (which : Which) (d : DSt) (fields : List String) (impl : String) : 
   | "setinbound" :: [n] =>
     -- the harness sets Session.SMState.Inbound directly (stanzas received meanwhile); no session, no effect
     ((if d.sess.present then { d with sess := { d.sess with inbound := n.toNat?.getD 0 } } else d), .det "ok" impl true true)
+  | ["hold", _, _] =>
+    -- the application sent stanzas, some were acknowledged: the harness reports what is held now
+    ({ d with held := impl, lastResumed := false }, .det impl impl true true)
+  | ["heldcheck"] =>
+    -- "if the server confirms that id the session continues ... keeping its identity, counters and held stanzas"
+    if d.lastResumed then ({ d with lastResumed := false }, .det d.held impl true (impl == d.held))
+    else ({ d with held := impl }, .det impl impl true true)
   | ["pubapi"] =>
     -- Client.Connect, then Client.Resume (confirmed), a Resume the server refuses at SASL, a Resume again: "the
     -- session-established state is announced exactly when connecting succeeds" through the public entry points
@@ -169,7 +180,7 @@ def stepWith (which : Which) (d : DSt) (fields : List String) (impl : String) : 
     let okI := match io with
       | some o => !o.crashed && spec o.established o.writes o.permanent o.sess
       | none => false
-    ((if kind == "apiconn" then d0 else { d with sess := r.sess }), ⟨ms, ms == impl, okM, okI, "-"⟩)
+    ((if kind == "apiconn" then d0 else { d with sess := r.sess, lastResumed := r.resumed && r.outcome == .established }), ⟨ms, ms == impl, okM, okI, "-"⟩)
   | _ => (d, .bad)
 
 def handlerC03 : Handler := ⟨DSt, init, stepWith .c03⟩
